@@ -22,7 +22,9 @@ def mutants_for(pid):
             if os.path.exists(mp) and os.path.exists(pp):
                 m = json.load(open(mp))
                 props = m.get("detected_by_checks") or [m.get("property")]
-                if pid == m.get("property") or pid in props:
+                # a seed is replayed under the checks that are documented to report it (verdict / meta `detected_by_checks`);
+                # without such a list, under the check of its own property
+                if pid in props:
                     out.append((d, pp, m))
     return out
 
